@@ -575,3 +575,48 @@ def part_read_bounded(u: U):
         return
     u.check("C09.part.read.result_within_limit", Or(at_eof0, blen(res) <= maxs),
             "what read() returns (raw or decoded) is within client_max_size")
+
+
+@unit("C09", "part.read_stops_at_the_limit", functions=[f"{MPM}:BodyPartReader.read"], kind="bounded", also=("C19",))
+def part_read_stops_at_the_limit(u: U):
+    """BOUND: the first 4 chunks of a part (read loop unrolled 4 times), any chunk lengths, any limit.
+    The same clause as part.read_bounded, stated on a ghost count instead of on the function's accumulator, so that it
+    survives a refactoring of how read() collects its chunks: read() asks its stream for a further chunk only while what
+    it has taken so far is within client_max_size - the limit is enforced while reading, not after buffering."""
+    maxs = u.int("client_max_size", 0)
+    taken = []
+
+    class TooBig(Exception):
+        def __init__(self, limit):
+            self.limit = limit
+
+    def read_chunk(self, size):
+        held = sum((blen(c) for c in taken), 0)
+        u.check("C09.part.read.asks_for_more_only_within_limit", held <= maxs,
+                "a further chunk is requested only while the bytes already taken are within client_max_size (else a part "
+                "without Content-Length is buffered whole - or for ever - before it is refused)",
+                witness={"chunks_taken": len(taken), "client_max_size": maxs},
+                also_as=("C19.limit.part_read_enforced_while_reading",))
+
+        def res():
+            c = u.bytes(f"raw_chunk[{len(taken)}]")
+            u.assume(blen(c) > 0)
+            taken.append(c)
+            # (the part ends with its 4th chunk at the latest: the bound of this stand-in)
+            fields(self)["_at_eof"] = True if len(taken) >= 4 else u.bool(f"at_eof@chunk{len(taken)}")
+            return c
+
+        return SAwait(result=res, name="read_chunk")
+
+    r = u.obj("BodyPartReader", {"_at_eof": False, "_client_max_size": maxs, "_max_size_error_cls": TooBig,
+                                 "chunk_size": 8192},
+              {"read_chunk": read_chunk}, shared=False, real=(MPM, "BodyPartReader"))
+    f = u.load(MPM, "BodyPartReader.read")
+    from pyvc.runtime import LoopSpec
+
+    u.default_loop_spec = LoopSpec(unroll=True, bound=6)
+    out = u.call(f, r, decode=False)
+    if out.ok and taken:
+        u.check("C09.part.read.stops_result_within_limit", sum((blen(c) for c in taken), 0) <= maxs,
+                "what a completed read() took from the stream is within client_max_size",
+                also_as=("C19.limit.part_read_result_within_limit",))
